@@ -3,6 +3,7 @@ open BHS.Props.C18
 #print axioms C18_limits
 #print axioms C18_limits_server
 #print axioms C18_limits_any_history
+#print axioms C18_valid_of_history
 #print axioms C18_counters_return_to_zero
 #print axioms C18_admission_exact
 #print axioms C18_ban
